@@ -5,3 +5,5 @@ import Solvor.Ds.Theorems
 #print axioms Solvor.Ds.qf_union_classes
 #print axioms Solvor.Ds.fenwick_refines
 #print axioms Solvor.Ds.fenwick_refines_zeros
+#print axioms Solvor.Ds.fenwick_updates_eq_rebuild
+#print axioms Solvor.Ds.fenwick_history_independent
